@@ -5,7 +5,7 @@
    labels: which thread moves, which ready select case is taken, when the context
    ends); [run] skips labels that are not enabled. *)
 From Coq Require Import List ZArith Bool Arith Permutation.
-From GZ Require Import C10.Model C10.Proofs C10.ProofsT C10.ProofsQ C10.ProofsM C10.ProofsS.
+From GZ Require Import C10.Model C10.Proofs C10.ProofsT C10.ProofsQ C10.ProofsM C10.ProofsS C10.ProofsC.
 Import ListNotations.
 
 (* At most [workers] mapper functions run at any time (and the pool never holds more
@@ -203,6 +203,17 @@ Theorem safe_no_runtime_panic : forall c sched, safe_out c = true ->
   result (run c (init c) sched) <> Some (OPanic PClosed).
 Proof. exact safe_no_runtime_panic_l. Qed.
 Print Assumptions safe_no_runtime_panic.
+
+(* when the caller's select takes a value from output and commits to it (the only way to a normal
+   result with a value), no cancel call has entered the once body, no error is stored and the
+   context branch has not been taken — in particular not inside the window between retErr.Set
+   and finish() of a cancel that is still draining the source (Pinned.seed_c10_4_...) *)
+Theorem value_commit_not_cancelled : forall c sched b s' v,
+  let s := run c (init c) sched in
+  mainpc s = MSelect -> step c s (LMain b) = Some s' -> mainpc s' = MDefer (OVal v) ->
+  g_cancels s = [] /\ reterr s = None /\ cstate s = CNone.
+Proof. exact value_commit_not_cancelled_l. Qed.
+Print Assumptions value_commit_not_cancelled.
 
 (* ---- termination ---- *)
 (* every step of every thread, and the context event, strictly decreases [measure] (any variant,
